@@ -70,6 +70,25 @@ pub fn deep_code_cases(id: &str, tier: Tier) -> Vec<SeqCase> {
             v.push(two(TreeKind::Hqwt512, 4_720_000, 8));
         }
     }
+    if id == "C01" || id == "C09" {
+        // lengths next to 2^20 for the trees with prefetch support (one sample bit per 2048-symbol
+        // superblock: the sample vectors are 511, 512 and 513 bits long)
+        let around = |kind: TreeKind, n: usize, seed: u64| SeqCase {
+            kind,
+            ty: ElemTy::U8,
+            how: How::FromVec,
+            content: Content::Recipe(Recipe { n, alphabet: (0..40).collect(), profile: Profile::Uniform, arr: Arr::Shuffled, seed }),
+            tie_seed: seed,
+            plan_seed: seed,
+        };
+        v.push(around(TreeKind::Qwt256Pfs, (1 << 20) - 2048, 21));
+        v.push(around(TreeKind::Qwt512Pfs, (1 << 20) - 2047, 22));
+        if tier == Tier::Thorough {
+            v.push(around(TreeKind::Qwt256Pfs, 1 << 20, 23));
+            v.push(around(TreeKind::Qwt512Pfs, (1 << 20) + 1, 24));
+            v.push(around(TreeKind::Qwt256Pfs, (1 << 21) - 2048, 25));
+        }
+    }
     if id == "C03" {
         // 24 binary levels in the quick tier, the full 32 in the thorough tier
         v.push(mk(TreeKind::Hwt, ElemTy::U16, 200_000, 2, Arr::Shuffled, 4));
@@ -125,8 +144,10 @@ impl Prop for SeqExact {
             (Tier::Quick, _) if self.is_prefetch() => 4_000,
             (Tier::Thorough, _) if self.is_prefetch() => 40_000,
             (Tier::Quick, "fast") => 30_000,
+            (Tier::Quick, "noprefetch") => 6_000,
             (Tier::Quick, _) => 15_000,
             (Tier::Thorough, "fast") => 240_000,
+            (Tier::Thorough, "noprefetch") => 30_000,
             (Tier::Thorough, _) => 60_000,
         }
     }
@@ -134,7 +155,8 @@ impl Prop for SeqExact {
         if self.is_prefetch() {
             if _tier == Tier::Thorough { vec!["fast", "checked", "noprefetch", "asan"] } else { vec!["fast", "checked", "noprefetch"] }
         } else {
-            vec!["fast", "checked"]
+            // the crate feature `prefetch` must not matter for any answer: a smaller run without it
+            vec!["fast", "checked", "noprefetch"]
         }
     }
     fn transcript_pairs(&self) -> Vec<(&'static str, &'static str)> {
